@@ -426,6 +426,43 @@ func runC16(r *Report) {
 					ok, why = false, "the CAS does not move the state to Closing"
 				} else if !fresh {
 					ok, why = false, "the CAS expects a fixed state instead of the state just loaded (a failed CAS must re-read, not continue)"
+				} else {
+					// the state the CAS starts from is known not to be Closing: Closing -> Closing succeeds and
+					// would let a second closer into the body while the first is still inside it
+					notClosing := false
+					// the CAS may have been found through a helper's imported facts (a rewritten copy): judge
+					// the original instruction in its own function
+					casAt, oldAt := cas, old
+					for _, f2 := range r.P.FuncsIn(ctPkg) {
+						for _, c2 := range Calls(f2, false, "atomic:Int32.CompareAndSwap") {
+							if c2.Pos() == cas.Pos() {
+								if cc, ok := c2.(*ssa.Call); ok {
+									casAt, oldAt = cc, Arg(cc, 0)
+								}
+							}
+						}
+					}
+					for _, ft := range Facts(casAt.Block()) {
+						bo, isB := ft.Cond.(*ssa.BinOp)
+						if !isB || !(stripValue(bo.X) == stripValue(oldAt) || sameExpr(bo.X, oldAt) || losslessSame(bo.X, oldAt)) {
+							continue
+						}
+						k2, isK := ConstInt(bo.Y)
+						if !isK {
+							continue
+						}
+						switch {
+						case k2 == 2 && ((bo.Op == token.EQL && !ft.Pol) || (bo.Op == token.NEQ && ft.Pol)):
+							notClosing = true
+						case k2 == 2 && ((bo.Op == token.LSS && ft.Pol) || (bo.Op == token.GEQ && !ft.Pol)):
+							notClosing = true
+						case k2 == 1 && ((bo.Op == token.LEQ && ft.Pol) || (bo.Op == token.GTR && !ft.Pol)):
+							notClosing = true
+						}
+					}
+					if !notClosing {
+						ok, why = false, "the state the CAS starts from may be Closing itself (the early return does not exclude it): Closing -> Closing succeeds for a second closer"
+					}
 				}
 			}
 			name := CalleeOf(s).Name
@@ -794,4 +831,12 @@ func callersAcquire(p *Prog, helper *ssa.Function, acq string) bool {
 		})
 	}
 	return n > 0 && all
+}
+
+// losslessSame: a and b are the same value seen through value-preserving conversions
+// (`TunnelState(current)` and `current`).
+func losslessSame(a, b ssa.Value) bool {
+	ba, ok1 := losslessBase(a)
+	bb, ok2 := losslessBase(b)
+	return ok1 && ok2 && (ba == bb || sameExpr(ba, bb))
 }
